@@ -2,9 +2,13 @@
     Theorem-only file.  Model: YLex/Model.v (parser/lexer.go and the string post-processing of
     parser/parser.y, as repaired); specification: YLex/Spec.v (RFC 7950 6.1.1-6.1.3).  The goyacc LALR
     driver and its tables are not modelled; statement fidelity (part S of the property) is established
-    by the correspondence check only (bin/props.d/C06.json). *)
+    by the correspondence check only (bin/props.d/C06.json), except for the list-valued statements
+    (must, unique, revision) on their way through grouping expansion, refine and deviation: part G
+    at the end of this file, model Meta/Slices.v (clone and addMust of meta/core_gen.in, refine and
+    applyDeviation of meta/resolver.go, the revision accessors of meta/core.go). *)
 From Coq Require Import List Bool Arith Strings.Byte.
 From YV Require Import YLex.Keywords YLex.Model YLex.Spec YLex.Proofs YLex.Total YLex.ProofsExt.
+From YV Require Import Meta.Slices Meta.SlicesProofs.
 Import ListNotations.
 
 (** White space and comments (block comments, line comments, in any number and order) between two
@@ -121,3 +125,69 @@ Example C06_pinned_commit_refuted :
   /\ ws_old ON [x2f; x2a; x2f; x61; x2a; x2f; x62] = Some [x61; x2a; x2f; x62]
   /\ accept_ws [x2f; x2a; x2f; x61; x2a; x2f; x62] = [x62].
 Proof. vm_compute. repeat split. Qed.
+
+(** ---- PART G: must / unique / revision through uses, refine and deviation --------------------------
+    The loader keeps these statements in Go slices: the builder appends, clone() copies when a
+    grouping is used or an augment applied, refine and "deviate add" append to the copy, "deviate
+    delete" rebuilds.  The model runs these operations on slice headers over a heap of backing arrays
+    (append writes in place when there is spare capacity), for any number of objects.
+
+    MAIN THEOREM of part G.  For EVERY sequence of such operations - every number of statements on
+    every node, every number of uses of every grouping, copies of copies, refinements and deviations
+    in any order - what is read back from every object is exactly the list of entries written for it
+    (the specification [spec_read]: a copy starts with the entries of its original and is from then
+    on an object of its own), and the load fails exactly when a "deviate delete" names an entry that
+    is not there. *)
+Theorem C06_list_statements_read_back : forall (prog : list op) (n : nat),
+  load_and_read true prog n = spec_read prog n.
+Proof. exact load_reads_written. Qed.
+Print Assumptions C06_list_statements_read_back.
+
+(** the clause in the shape it has in a module: a grouping node with the musts [ms], used
+    [length adds] times, the i-th use refined / deviated with the musts [nth i adds]: the i-th copy
+    reads back [ms] followed by its own additions, the grouping itself keeps [ms] *)
+Theorem C06_uses_keep_their_own_musts : forall (ms : list cell) (adds : list (list cell)),
+  exists cells, load_and_read true (grouping_prog ms adds) (S (length adds)) = Some cells /\
+    nth 0 cells [] = ms /\
+    (forall j rs, nth_error adds j = Some rs -> nth (S j) cells [] = ms ++ rs).
+Proof. exact uses_read_back. Qed.
+Print Assumptions C06_uses_keep_their_own_musts.
+
+(** non-vacuity: three musts on the grouping leaf (capacity four after the builder's appends), two
+    uses with one more must each, and a program with a copy of a copy and a deviate delete *)
+Example C06_uses_example :
+  load_and_read true (grouping_prog [m_ x61; m_ x62; m_ x63] [[m_ x37]; [m_ x39]]) 3
+  = Some [[m_ x61; m_ x62; m_ x63]; [m_ x61; m_ x62; m_ x63; m_ x37]; [m_ x61; m_ x62; m_ x63; m_ x39]]
+  /\ load_and_read true [OAppend 0 (m_ x61); OAppend 0 (m_ x62); OClone 0 1; OClone 1 2; OAppend 1 (m_ x63);
+                          ODelete 2 (m_ x61) false; OAppend 2 (m_ x64)] 3
+  = Some [[m_ x61; m_ x62]; [m_ x61; m_ x62; m_ x63]; [m_ x62; m_ x64]]
+  /\ load_and_read true [OAppend 0 (m_ x61); ODelete 0 (m_ x62) false] 1 = None
+  /\ load_and_read true [OAppend 0 [[x62]; [x61]]; OAppend 0 [[x64]; [x63]]; ODelete 0 [[x63]; [x64]] true] 1
+  = Some [[[[x62]; [x61]]]].
+Proof. vm_compute. repeat split. Qed.
+
+(** the theorem is about the [make] in clone(): a copy that keeps the header of the struct copy
+    shares the spare capacity of the grouping's array with every other copy, and the must added to
+    the first use is read back as the must added to the second *)
+Example C06_shared_backing_array_refuted :
+  load_and_read false (grouping_prog [m_ x61; m_ x62; m_ x63] [[m_ x37]; [m_ x39]]) 3
+  = Some [[m_ x61; m_ x62; m_ x63]; [m_ x61; m_ x62; m_ x63; m_ x39]; [m_ x61; m_ x62; m_ x63; m_ x39]]
+  /\ spec_read (grouping_prog [m_ x61; m_ x62; m_ x63] [[m_ x37]; [m_ x39]]) 3
+  = Some [[m_ x61; m_ x62; m_ x63]; [m_ x61; m_ x62; m_ x63; m_ x37]; [m_ x61; m_ x62; m_ x63; m_ x39]].
+Proof. exact shared_header_refuted. Qed.
+
+(** reading the revisions does not alter them: whatever sequence of Module.Revision /
+    RevisionHistory / Revisions is called, in any order and any number of times, every call answers
+    from the revision statements in the order they were written *)
+Theorem C06_revision_accessors_pure : forall (revs : list cell) (calls : list racc),
+  racc_run revs calls = map (racc_spec revs) calls.
+Proof. exact racc_pure. Qed.
+Print Assumptions C06_revision_accessors_pure.
+
+(** ... which a Revision() that sorts the list it answers from does not satisfy *)
+Example C06_sorting_accessor_refuted :
+  racc_run_sorting [rv_ x39; rv_ x37; rv_ x38] [AHistory; ARevision; AHistory]
+  = [[rv_ x39; rv_ x37; rv_ x38]; [rv_ x39]; [rv_ x39; rv_ x38; rv_ x37]]
+  /\ map (racc_spec [rv_ x39; rv_ x37; rv_ x38]) [AHistory; ARevision; AHistory]
+  = [[rv_ x39; rv_ x37; rv_ x38]; [rv_ x39]; [rv_ x39; rv_ x37; rv_ x38]].
+Proof. exact racc_sorting_refuted. Qed.
